@@ -69,7 +69,8 @@ func pathText(v *dg.Val) string {
 
 // side describes where the attributes of a payload (request) or result (response) travel.
 type side struct {
-	object bool // the value is an object with per-attribute locations
+	hasAny func(attr string) bool // the attribute's type holds an Any somewhere (set by the caller)
+	object bool                   // the value is an object with per-attribute locations
 	attrs  []AttrInfo
 	locs   func(attr string) [][2]string
 	whole  string // for non-object values: the single location
@@ -215,6 +216,11 @@ func lossClass(s side, attr string, g, r *dg.Val, response bool) string {
 		}
 	}
 	param := loc == "query" || loc == "header" || loc == "cookie"
+	if s.hasAny != nil && s.hasAny(attr) && loc == "body" && g != nil && r != nil {
+		if gf, changed := intsAsFloats(g); changed && gf.Equal(r) {
+			return "any-integer-arrives-float64"
+		}
+	}
 	switch {
 	case def != nil && g != nil && isZero(g) && r != nil && r.Equal(def) && !g.Equal(def):
 		return "default-overrides-zero"
@@ -301,8 +307,9 @@ func goaPrimToDesign(p string) string {
 }
 
 // classifyRequest: signature of a C02 failure.
-func classifyRequest(ep *EpInfo, given, want, got *dg.Val, ob *rt.Obs) string {
+func classifyRequest(ep *EpInfo, given, want, got *dg.Val, ob *rt.Obs, hasAny func(string) bool) string {
 	s := reqSide(ep)
+	s.hasAny = hasAny
 	if ob.Invoked != 1 {
 		st := statusOf(ob)
 		fields := func(pred func(loc string, ai *AttrInfo, v *dg.Val) bool) bool {
@@ -377,8 +384,9 @@ func classifyDiff(s side, given, want, got *dg.Val, response bool, what string) 
 }
 
 // classifyResponse: signature of a C03 failure.
-func classifyResponse(ep *EpInfo, sel *RespInfo, given, want, got *dg.Val, ob *rt.Obs) string {
+func classifyResponse(ep *EpInfo, sel *RespInfo, given, want, got *dg.Val, ob *rt.Obs, hasAny func(string) bool) string {
 	s := respSide(ep, sel)
+	s.hasAny = hasAny
 	if ob.ClientErr != nil {
 		// the client refused the response
 		if s.object && sel != nil {
